@@ -112,6 +112,7 @@ class ImageParser(CastParser):
         logging.debug("locH = %s", locH)
 
         palette = 'systemMac'
+        palette_txt = 'systemMac'
         if (len(header_data) > 24):
             bitdepth =  struct.unpack(">h", header_data[idx:idx+2])[0]
             idx += 2
